@@ -114,6 +114,12 @@ def scenarios():
         tiers=('thorough',), bound=(1, 1))
     add('S4 three threads on one grader warmed-up', [_call(af, 'm', 40, 'HJ')],
         [_call(af, 'm', 50, 'HJ'), _call(af, 'f', 62, 'PV'), _call(wb, 'm', 'LJ')], tiers=('thorough',), bound=(1, 2))
+    # S6 different graders (different table files) loading and working at the same time
+    add('S6 athlon score with age || wma_age_factor first-call', [], [_call(sc, 'M', '100', 12.5, 52), _call(af, 'm', 52, '200')], bound=(1, 2))
+    add('S6 wma_age_factor 2015 || 2023 first-call', [], [_call(af, 'm', 50, '55H', year=2015), _call(af, 'f', 62, '60H', year=2023)], bound=(1, 2))
+    add('S6 wma_age_factor || wma_athlon_age_factor first-call', [], [_call(af, 'm', 50, '55H'), _call(aaf, 'M', 50, '100')], bound=(1, 2))
+    add('S6 athlon score with age || wma_age_factor 2015 warmed-up', [_call(af, 'm', 40, '55H'), _call(sc, 'M', '100', 11, 40)],
+        [_call(sc, 'M', '100', 12.5, 52), _call(af, 'm', 52, '60H', year=2015)], bound=(1, 2))
     # S5 validation caches at their size limit
     sv, va = U().schema_valid, U().valid_against_schema
     for n in (19, 20):
